@@ -14,14 +14,14 @@ Record addr := { a_t : tref; a_c : cref; a_r : rref }.
 
 Definition titles := list (string * Z).
 Fixpoint title_index (ts : titles) (s : string) : res Z :=
-  match ts with [] => Exc KeyError | (k, i) :: t => if String.eqb k s then Ok i else title_index t s end.
+  match ts with [] => Exc E2PyclCell (* unknown worksheet: after fix 7ad1ad6 *) | (k, i) :: t => if String.eqb k s then Ok i else title_index t s end.
 
 Definition upper_ascii (c : ascii) : ascii := if is_lower c then ascii_of_N (N_of_ascii c - 32) else c.
 Definition upper (s : string) : string := string_of_list (map upper_ascii (list_of_string s)).
 (* openpyxl.utils.column_index_from_string: 1..3 letters, case-insensitive, A..ZZZ (18278) *)
 Definition column_index_from_string (s : string) : res Z :=
   let u := upper s in
-  if (String.eqb u "") || (3 <? slen u) || negb (all_AZ u) then Exc ValueError
+  if (String.eqb u "") || (3 <? slen u) || negb (all_AZ u) then Exc E2PyclCell      (* openpyxl's ValueError, re-raised by handle_cell (fix 7edbc3d) *)
   else Ok (col_of_letters u).
 
 (* handle_cell: normalised (title, column, row); row None when given as an empty string *)
@@ -31,7 +31,8 @@ Definition handle (ts : titles) (a : addr) : res (Z * Z * option Z) :=
   do r <- match a_r a with
           | RIdx r => Ok (Some r)
           | RNone => Ok None
-          | RDigits s => if String.eqb s "" then Ok None else (do k <- int_of_string s; Ok (Some (k - 1)))
+          | RDigits s => if String.eqb s "" then Ok None
+                         else (do k <- int_of_string s; if k - 1 <? 0 then Exc E2PyclCell else Ok (Some (k - 1)))     (* row 0: fix 7edbc3d *)
           end;
   Ok (t, c, r).
 
